@@ -12,14 +12,15 @@ RULE = ("(a) all rooted DAG shapes n<=3 x listing orders x kinds x COND files ne
         "length <=2 and every options dict with <=2 keys over the primitive alphabet {'a','a b','',0,-1,1.5,True,False}; every spawn "
         "observed at the process layer of the virtual kernel is compared with the reference contract (argv, bash, cwd, COND_NAME, "
         "COND_OUT, COND_DEPS in declared order = spawn-time COND_OUT of deps that ran / selected version of cached deps) and the "
-        "support library is evaluated under exactly that environment; distinct = distinct (case, spawn contract) observations")
+        "support library is evaluated under exactly that environment; distinct = distinct (case, spawn contract) observations"
+        ' Cached dependencies additionally come with two recorded versions at the same commit (tie broken towards the newest).')
 ASSUMPTIONS = [
     "'runs under bash as run+args+options' is observed as the Popen argument vector (shell=True, executable=/bin/bash); that this "
     "vector reaches a real bash unchanged is bound by the real-process conformance items of C10/conformance",
     "cached experiments use git-less newest-version selection here; the selection rule itself is C05",
 ]
 CHUNK = 8
-PRIMS = ["a", "a b", "", 0, -1, 1.5, True, False]
+PRIMS = ["a", "a b", "", 0, -1, 1.5, True, False, 1e-15, 0.1 + 0.2]
 
 
 def warmup():
@@ -76,7 +77,7 @@ def mon(s, obs):
                 exp_deps.append(spawn_out[d])
             elif s.kinds[d] == "exp":
                 if d in cached:
-                    exp_deps.append(os.path.join(root, "cond-out", pkgs[d], "%s.task.%d" % (dn, rungrid.CACHE_TS + d)))
+                    exp_deps.append(os.path.join(root, "cond-out", pkgs[d], "%s.task.%d" % (dn, rungrid.selected_version(case, d)[0])))
                 else:
                     exp_deps.append("<experiment %s neither ran nor cached>" % s.ids[d])
             else:
@@ -142,6 +143,13 @@ def items(tier):
                 for commit in ((None,) if not git else (None, "c1" * 20, "c2" * 20)):
                     out.append({"case": {"g": g, "kinds": kinds, "pars": [False] * n, "jobs": 1, "git": git,
                                          "cached": {str(e): commit for e in exps}, "two_versions": True, "empty_index": True}, "bound": 0})
+    # cond started with COND_* already in its environment (nested invocation): tasks must see their own values
+    for g in rungrid.graphs_upto((1, 2, 3)):
+        n = len(g)
+        for kinds in (["cmd"] * n, ["exp"] * n, (["combine"] + ["exp"] * n)[:n]):
+            for jobs in (1, 2):
+                out.append({"case": {"g": g, "kinds": kinds, "pars": [k != "combine" and jobs > 1 for k in kinds], "jobs": jobs,
+                                     "outer_env": True}, "bound": 0})
     # (b) argument / option serialisation on a single task
     arglists = [[]] + [[x] for x in PRIMS] + [[x, y] for x in PRIMS for y in PRIMS]
     optdicts = [{}] + [{"k": x} for x in PRIMS] + [{"k": x, "j2": y} for x in PRIMS for y in PRIMS] + [{"j2": y, "k": x} for x in PRIMS[:3] for y in PRIMS[:3]]
